@@ -290,7 +290,7 @@ _BY_ID: dict[int, Any] = {
 # modules that keep the real objects (logging / CLI / plugin discovery only)
 _SKIP_PREFIXES = (
     "pynenc.util.log",
-    "pynenc.cli",
+    "pynenc.cli.",
     "pynenc.util.import_app",
     "pynenc.plugin_loader",
     "pynenc.builder",
@@ -310,7 +310,7 @@ def import_all() -> None:
         except Exception:  # noqa: BLE001
             continue
         for m in pkgutil.walk_packages(pkg.__path__, pkgname + "."):
-            if m.name.startswith("pynenc.cli") or "__main__" in m.name:
+            if m.name.startswith("pynenc.cli.") or m.name == "pynenc.cli" or "__main__" in m.name:
                 continue
             try:
                 importlib.import_module(m.name)
@@ -327,7 +327,7 @@ def install() -> dict[str, list[str]]:
     for name, mod in sorted(sys.modules.items()):
         if mod is None or not (name.startswith("pynenc") or name.startswith("pynmon")):
             continue
-        if name.startswith(_SKIP_PREFIXES):
+        if name.startswith(_SKIP_PREFIXES) or name == "pynenc.cli":
             continue
         for attr, val in list(vars(mod).items()):
             repl = _BY_ID.get(id(val))
